@@ -381,6 +381,10 @@ func c19wGen(rt *rapid.T) c19wProg {
 			} else {
 				p.Ops = append(p.Ops, wOp{K: "set", S: s, T: "fnd", H: map[string]any{"public": "␡", "private": q}})
 			}
+			if gPct(rt, 8) {
+				// the store fails to read the searcher's own account while the query is checked
+				p.Ops = append(p.Ops, wOp{K: "fault", N: 1, A: "UserGet"})
+			}
 			p.Ops = append(p.Ops, wOp{K: "get", S: s, T: "fnd", A: "sub"})
 		case x < 53: // account tags
 			p.Ops = append(p.Ops, wOp{K: "set", S: s, T: "me", A: "tags", X: c19wGenTags(rt, resUser(u), foreign)})
@@ -1311,6 +1315,25 @@ func (o *c19wObs) judgeSearch(w *wWorld, st *wStep, healthy bool) *kit.Viol {
 		}
 	}
 
+	if st.Fired {
+		// the store failed while the search was prepared: an error reply is right; what must not happen
+		// is an answer to a query naming a masked tag the searcher does not carry
+		o.class("search:store-failed")
+		for _, t := range terms {
+			every := len(t.alts) > 0
+			for _, alt := range t.alts {
+				bad := false
+				for _, s := range alt {
+					bad = bad || (c19wNSIn(s, masked) && !me.tags[s])
+				}
+				every = every && bad
+			}
+			if every && meta && len(found) > 0 {
+				return kit.V("masked-term-accepted:store-failed", "%s: the store failed during the request, and %d results came back although the query names a masked tag the searcher does not carry", desc(), len(found))
+			}
+		}
+		return nil
+	}
 	if ref.Err != "" {
 		o.class("search:malformed")
 		if meta || (code >= 200 && code < 300) {
